@@ -2,13 +2,15 @@
 A harness counts as decided only with `VERIFICATION:- SUCCESSFUL`, no unwinding-assertion failure and every cover property satisfied."""
 import os, re, subprocess, time, json, shutil
 from concurrent.futures import ThreadPoolExecutor
-from lib.common import VERIF, REPO, BUILD, ENV, CheckInconclusive
+from lib.common import VERIF, REPO, BUILD, ENV, CheckInconclusive, crates_root
 
-KDIR = os.path.join(VERIF, 'kani')
+KDIR = os.path.join(crates_root(), 'kani')
 
 
 def prepare():
     shutil.copyfile(os.path.join(REPO, 'Cargo.lock'), os.path.join(KDIR, 'Cargo.lock'))
+    from lib.common import point_crate_at_repo
+    point_crate_at_repo(os.path.join(KDIR, 'Cargo.toml'))
     os.makedirs(os.path.join(BUILD, 'kani-logs'), exist_ok=True)
 
 
